@@ -1,4 +1,6 @@
-package main
+// Package p2pexec concretises abstract peer-input op lines (the lines the Lean drivers drv_c33 / drv_c34 read)
+// into real messages and calls into the dht protocol packages of /repo, and reports the canonical outcome.
+package p2pexec
 
 // Executor: turns one abstract op line (the same line the Lean driver reads) into real objects and a
 // call into the real chain33 code, observes the effect and returns the canonical output.
@@ -35,9 +37,9 @@ type logCapture struct {
 	counts map[string]int
 }
 
-var logs = &logCapture{counts: map[string]int{}}
+var Logs = &logCapture{counts: map[string]int{}}
 
-func (l *logCapture) install() {
+func (l *logCapture) Install() {
 	log15.Root().SetHandler(log15.FuncHandler(int(log15.LvlDebug), func(r *log15.Record) error {
 		l.mu.Lock()
 		l.counts[r.Msg]++
@@ -46,13 +48,13 @@ func (l *logCapture) install() {
 	}))
 }
 
-func (l *logCapture) reset() {
+func (l *logCapture) Reset() {
 	l.mu.Lock()
 	l.counts = map[string]int{}
 	l.mu.Unlock()
 }
 
-func (l *logCapture) n(msg string) int {
+func (l *logCapture) N(msg string) int {
 	l.mu.Lock()
 	defer l.mu.Unlock()
 	return l.counts[msg]
@@ -60,26 +62,26 @@ func (l *logCapture) n(msg string) int {
 
 // ---------------------------------------------------------------- panic capture with call site
 
-type panicInfo struct {
-	site string // innermost chain33 function on the panicking stack
-	kind string // index-out-of-range | nil-dereference | makeslice | other
+type PanicInfo struct {
+	Site string // innermost chain33 function on the panicking stack
+	Kind string // index-out-of-range | nil-dereference | makeslice | other
 }
 
 // guard runs f; a panic is returned with its call site (innermost frame inside /repo's module).
-func guard(f func()) (pi *panicInfo) {
+func Guard(f func()) (pi *PanicInfo) {
 	defer func() {
 		if e := recover(); e != nil {
-			pi = &panicInfo{site: "unknown", kind: "other"}
+			pi = &PanicInfo{Site: "unknown", Kind: "other"}
 			msg := fmt.Sprint(e)
 			switch {
 			case strings.Contains(msg, "index out of range"), strings.Contains(msg, "slice bounds out of range"):
-				pi.kind = "index-out-of-range"
+				pi.Kind = "index-out-of-range"
 			case strings.Contains(msg, "nil pointer"), strings.Contains(msg, "invalid memory address"):
-				pi.kind = "nil-dereference"
+				pi.Kind = "nil-dereference"
 			case strings.Contains(msg, "makeslice"):
-				pi.kind = "makeslice"
+				pi.Kind = "makeslice"
 			case strings.Contains(msg, "interface conversion"):
-				pi.kind = "type-assertion"
+				pi.Kind = "type-assertion"
 			}
 			pcs := make([]uintptr, 64)
 			n := runtime.Callers(2, pcs)
@@ -89,7 +91,7 @@ func guard(f func()) (pi *panicInfo) {
 				if strings.Contains(fr.Function, "github.com/33cn/chain33/") && !strings.Contains(fr.Function, "Verif") &&
 					!strings.Contains(fr.Function, "verif") {
 					fn := fr.Function[strings.LastIndex(fr.Function, "/")+1:]
-					pi.site = fn
+					pi.Site = fn
 					break
 				}
 				if !more {
@@ -104,18 +106,18 @@ func guard(f func()) (pi *panicInfo) {
 
 // ---------------------------------------------------------------- transactions by id
 
-type registry struct {
+type Registry struct {
 	byID   map[int]*types.Transaction
 	byHash map[string]int
 	next   int
 	weird  map[string]string
 }
 
-func newRegistry() *registry {
-	return &registry{byID: map[int]*types.Transaction{}, byHash: map[string]int{}, next: 5000, weird: map[string]string{}}
+func NewRegistry() *Registry {
+	return &Registry{byID: map[int]*types.Transaction{}, byHash: map[string]int{}, next: 5000, weird: map[string]string{}}
 }
 
-func (r *registry) tx(id int) *types.Transaction {
+func (r *Registry) Tx(id int) *types.Transaction {
 	if t, ok := r.byID[id]; ok {
 		return t
 	}
@@ -125,13 +127,13 @@ func (r *registry) tx(id int) *types.Transaction {
 	return t
 }
 
-func (r *registry) put(id int, t *types.Transaction) {
+func (r *Registry) put(id int, t *types.Transaction) {
 	r.byID[id] = t
 	r.byHash[string(t.Hash())] = id
 }
 
 // idOf identifies a transaction by its hash (unknown ones get a fresh id).
-func (r *registry) idOf(t *types.Transaction) int {
+func (r *Registry) IDOf(t *types.Transaction) int {
 	h := string(t.Hash())
 	if id, ok := r.byHash[h]; ok {
 		return id
@@ -143,9 +145,9 @@ func (r *registry) idOf(t *types.Transaction) int {
 	return id
 }
 
-func (r *registry) sh(id int) string { return types.CalcTxShortHash(r.tx(id).Hash()) }
+func (r *Registry) Sh(id int) string { return types.CalcTxShortHash(r.Tx(id).Hash()) }
 
-func isHex(s string) bool {
+func IsHex(s string) bool {
 	if s == "" {
 		return false
 	}
@@ -158,8 +160,8 @@ func isHex(s string) bool {
 }
 
 // token maps an arbitrary sTxHashes string to a word that is safe on the op line.
-func (r *registry) token(s string) string {
-	if isHex(s) {
+func (r *Registry) Token(s string) string {
+	if IsHex(s) {
 		return s
 	}
 	if t, ok := r.weird[s]; ok {
@@ -170,7 +172,7 @@ func (r *registry) token(s string) string {
 	return t
 }
 
-func (r *registry) slots(txs []*types.Transaction) string {
+func (r *Registry) Slots(txs []*types.Transaction) string {
 	if len(txs) == 0 {
 		return "-"
 	}
@@ -179,7 +181,7 @@ func (r *registry) slots(txs []*types.Transaction) string {
 		if t == nil {
 			w[i] = "_"
 		} else {
-			w[i] = strconv.Itoa(r.idOf(t))
+			w[i] = strconv.Itoa(r.IDOf(t))
 		}
 	}
 	return strings.Join(w, ",")
@@ -187,15 +189,15 @@ func (r *registry) slots(txs []*types.Transaction) string {
 
 // poolEntry builds the transaction the pool holds for (id, group): a plain transaction, or a head whose
 // GetTxGroup yields exactly the listed members.
-func (r *registry) poolEntry(id int, group []int) *types.Transaction {
+func (r *Registry) PoolEntry(id int, group []int) *types.Transaction {
 	if len(group) == 0 {
-		return r.tx(id)
+		return r.Tx(id)
 	}
 	var g types.Transactions
 	for _, m := range group {
-		g.Txs = append(g.Txs, r.tx(m))
+		g.Txs = append(g.Txs, r.Tx(m))
 	}
-	head := types.CloneTx(r.tx(id))
+	head := types.CloneTx(r.Tx(id))
 	gc := len(group)
 	if gc < 2 {
 		gc = 2
@@ -208,16 +210,16 @@ func (r *registry) poolEntry(id int, group []int) *types.Transaction {
 	return head
 }
 
-// ---------------------------------------------------------------- the executor
+// ---------------------------------------------------------------- the Executor
 
-type executor struct {
+type Executor struct {
 	w       *p2pv.World // single p2p type
 	wm      *p2pv.World // two p2p types
-	cur     *p2pv.World
-	lt      *broadcast.VerifLt
+	Cur     *p2pv.World
+	LT      *broadcast.VerifLt
 	outCh   chan interface{}
-	reg     *registry
-	ids     []peer.ID
+	Reg     *Registry
+	IDs     []peer.ID
 		now     int64
 	fh      *p2pv.FakeHost
 	dl      *download.Protocol
@@ -227,24 +229,27 @@ type executor struct {
 	nitems  int
 	seq     int
 	preds   func(sig, detail string)
-	recPan  int
+	RecPan  int
+	// what the last lt / tick op handed to the blockchain module and published as block requests
+	LastPosts []p2pv.BlockPost
+	LastReqs  []string
 }
 
-const nPeers = 12
+const NPeers = 12
 
-func newExecutor(pred func(sig, detail string)) *executor {
-	e := &executor{reg: newRegistry(), preds: pred}
-	e.ids = p2pv.PeerIDs(77, nPeers)
+func New(pred func(sig, detail string)) *Executor {
+	e := &Executor{Reg: NewRegistry(), preds: pred}
+	e.IDs = p2pv.PeerIDs(77, NPeers)
 	e.w = p2pv.NewWorld(p2pv.Options{HostSeed: 1})
 	e.wm = p2pv.NewWorld(p2pv.Options{HostSeed: 2, P2PTypes: []string{"dht", "gossip"}})
 	for _, w := range []*p2pv.World{e.w, e.wm} {
-		w.Env.ConnBlackList = &lru{}
+		w.Env.ConnBlackList = &Lru{}
 	}
 	// stream protocols: fake host, no pubsub needed
 	e.fh = p2pv.NewFakeHost(3)
 	e.dlWorld = p2pv.NewWorld(p2pv.Options{Host: e.fh, NoPubsub: true})
 	e.dlWorld.Env.SubConfig.Channel = 7
-	e.dlWorld.Env.ConnBlackList = &lru{}
+	e.dlWorld.Env.ConnBlackList = &Lru{}
 	e.dlWorld.Env.PeerInfoManager = p2pv.NewPeerInfo()
 	e.dl = download.VerifNew(e.dlWorld.Env)
 	e.pp = peerproto.VerifNew(e.dlWorld.Env)
@@ -269,7 +274,7 @@ func txPolicy(tx *types.Transaction) error {
 
 // blockFor maps a key token to the block it stands for: b<b>h<h> (block b at height h), d<n> (a block
 // the blockchain module will reject).
-func (e *executor) blockFor(tok string) *types.Block {
+func (e *Executor) blockFor(tok string) *types.Block {
 	var b, h int
 	if n, _ := fmt.Sscanf(tok, "b%dh%d", &b, &h); n == 2 {
 		return &types.Block{Height: int64(h), TxHash: []byte(fmt.Sprintf("verif-block-%d", b)), BlockTime: int64(b)}
@@ -281,33 +286,36 @@ func (e *executor) blockFor(tok string) *types.Block {
 }
 
 // ltKey maps a key token to the bytes of LightBlock.Header.Hash.
-func (e *executor) ltKey(tok string) []byte {
+func (e *Executor) ltKey(tok string) []byte {
 	if tok == "-" {
 		return nil
 	}
 	if blk := e.blockFor(tok); blk != nil {
-		return blk.Hash(e.cur.Cfg)
+		return blk.Hash(e.Cur.Cfg)
 	}
 	return []byte("key-" + tok)
 }
 
-func (e *executor) close() {
+// Cfg is the chain configuration of the environments.
+func (e *Executor) Cfg() *types.Chain33Config { return e.w.Cfg }
+
+func (e *Executor) Close() {
 	e.w.Close()
 	e.wm.Close()
 	e.dlWorld.Close()
 }
 
-type lru struct{}
+type Lru struct{}
 
-func (l *lru) Add(s string, t time.Duration) {}
-func (l *lru) Has(s string) bool             { return false }
-func (l *lru) List() *types.Blacklist        { return &types.Blacklist{} }
+func (l *Lru) Add(s string, t time.Duration) {}
+func (l *Lru) Has(s string) bool             { return false }
+func (l *Lru) List() *types.Blacklist        { return &types.Blacklist{} }
 
 // drainOut collects what the protocol published since the last call.
-func (e *executor) drainOut() []interface{} {
+func (e *Executor) drainOut() []interface{} {
 	e.seq++
 	mark := fmt.Sprintf("sentinel-%d", e.seq)
-	e.lt.PubSentinel(mark)
+	e.LT.PubSentinel(mark)
 	var got []interface{}
 	for x := range e.outCh {
 		if s, ok := x.(string); ok && s == mark {
@@ -318,18 +326,18 @@ func (e *executor) drainOut() []interface{} {
 	return got
 }
 
-func (e *executor) takePosts() []p2pv.BlockPost {
-	e.cur.Sync("blockchain")
-	return e.cur.TakePosts()
+func (e *Executor) TakePosts() []p2pv.BlockPost {
+	e.Cur.Sync("blockchain")
+	return e.Cur.TakePosts()
 }
 
-func (e *executor) unrecovered(path string, pi *panicInfo, detail string) {
+func (e *Executor) Unrecovered(path string, pi *PanicInfo, detail string) {
 	if (path == "blockRequestLoop" || path == "handleBroadcastReceive") && e.chain == "items" && e.nitems == 0 {
 		// the scripted blockchain module answered GetBlocks with an empty success, which the real module never
 		// does (it returns end-start+1 >= 1 items or an error): an environment assumption, not a peer input
 		return
 	}
-	e.preds(fmt.Sprintf("C33|%s>%s|%s-unrecovered", path, pi.site, pi.kind), detail)
+	e.preds(fmt.Sprintf("C33|%s>%s|%s-unrecovered", path, pi.Site, pi.Kind), detail)
 }
 
 func atoi(s string) int { n, _ := strconv.Atoi(s); return n }
@@ -352,7 +360,7 @@ func ints(s string) []int {
 }
 
 // exec runs one op line; lb != nil supplies an already decoded light block for `lt` (byte-level fuzz).
-func (e *executor) exec(line string, lb *types.LightBlock) string {
+func (e *Executor) Exec(line string, lb *types.LightBlock) string {
 	f := strings.Fields(line)
 	if len(f) == 0 {
 		return "bad-op"
@@ -362,14 +370,14 @@ func (e *executor) exec(line string, lb *types.LightBlock) string {
 		if len(f) != 3 {
 			return "bad-op"
 		}
-		e.cur = e.w
+		e.Cur = e.w
 		if f[1] == "1" {
-			e.cur = e.wm
+			e.Cur = e.wm
 		}
-		e.cur.PoolReset()
-		e.cur.TakePosts()
-		e.cur.SetVerdict(true, "")
-		e.cur.SetGetBlocks(nil)
+		e.Cur.PoolReset()
+		e.Cur.TakePosts()
+		e.Cur.SetVerdict(true, "")
+		e.Cur.SetGetBlocks(nil)
 		e.dlWorld.SetGetBlocks(nil)
 		e.chain = "err"
 		types.SetTimeDelta(0)
@@ -378,14 +386,14 @@ func (e *executor) exec(line string, lb *types.LightBlock) string {
 			// a fresh manager: the duplicate filter of p2p.Manager must start empty
 			e.wm.Close()
 			e.wm = p2pv.NewWorld(p2pv.Options{HostSeed: 2, P2PTypes: []string{"dht", "gossip"}})
-			e.wm.Env.ConnBlackList = &lru{}
+			e.wm.Env.ConnBlackList = &Lru{}
 			e.wm.SetSendTxPolicy(txPolicy)
-			e.cur = e.wm
+			e.Cur = e.wm
 		}
-		e.lt = broadcast.VerifNewLt(e.cur.Env)
-		e.lt.SetTimeout(atoi64(f[2]))
-		e.outCh = e.lt.Outgoing()
-		logs.reset()
+		e.LT = broadcast.VerifNewLt(e.Cur.Env)
+		e.LT.SetTimeout(atoi64(f[2]))
+		e.outCh = e.LT.Outgoing()
+		Logs.Reset()
 		return "ok"
 	case "pool":
 		if len(f) < 3 {
@@ -396,24 +404,24 @@ func (e *executor) exec(line string, lb *types.LightBlock) string {
 			if len(f) != 5 {
 				return "bad-op"
 			}
-			tx := e.reg.poolEntry(atoi(f[3]), ints(f[4]))
+			tx := e.Reg.PoolEntry(atoi(f[3]), ints(f[4]))
 			h, err := hex.DecodeString(f[2])
 			if err != nil || len(h) < 5 {
 				return "bad-op"
 			}
-			e.cur.PoolPush(tx, h)
+			e.Cur.PoolPush(tx, h)
 			return "ok"
 		case "del":
 			h, _ := hex.DecodeString(f[2])
-			e.cur.PoolRemove(h)
+			e.Cur.PoolRemove(h)
 			return "ok"
 		case "up":
-			e.cur.PoolUp(f[2] == "1")
+			e.Cur.PoolUp(f[2] == "1")
 			return "ok"
 		}
 		return "bad-op"
 	case "cur":
-		e.lt.SetHeight(atoi64(f[1]))
+		e.LT.SetHeight(atoi64(f[1]))
 		return "ok"
 	case "now":
 		e.now = atoi64(f[1])
@@ -422,7 +430,7 @@ func (e *executor) exec(line string, lb *types.LightBlock) string {
 	case "chain":
 		if f[1] == "err" {
 			e.chain = "err"
-			e.cur.SetGetBlocks(nil)
+			e.Cur.SetGetBlocks(nil)
 			e.dlWorld.SetGetBlocks(nil)
 			return "ok"
 		}
@@ -435,7 +443,7 @@ func (e *executor) exec(line string, lb *types.LightBlock) string {
 			}
 			return d
 		}
-		e.cur.SetGetBlocks(g)
+		e.Cur.SetGetBlocks(g)
 		e.dlWorld.SetGetBlocks(g)
 		return "ok"
 	case "lt":
@@ -448,44 +456,46 @@ func (e *executor) exec(line string, lb *types.LightBlock) string {
 				lb.Header = &types.Header{Hash: e.ltKey(f[1]), Height: atoi64(f[3]), TxCount: atoi64(f[4])}
 			}
 			if f[5] != "-" {
-				lb.MinerTx = e.reg.tx(atoi(f[5]))
+				lb.MinerTx = e.Reg.Tx(atoi(f[5]))
 			}
 			// over the wire: encode, compress, decompress, decode
-			raw := e.lt.EncodeMsg(lb)
-			dec := e.lt.NewMsg(broadcast.VerifLtBlockTopic)
-			if err := e.lt.DecodeMsg(raw, dec); err != nil {
+			raw := e.LT.EncodeMsg(lb)
+			dec := e.LT.NewMsg(broadcast.VerifLtBlockTopic)
+			if err := e.LT.DecodeMsg(raw, dec); err != nil {
 				return "undecodable"
 			}
 			lb = dec.(*types.LightBlock)
 		}
-		sender := e.ids[atoi(f[6])%nPeers]
-		before := e.lt.PendLen()
-		p0, r0 := logs.n("handleReceive_Panic"), logs.n("recvLtBlk")
-		if pi := guard(func() { e.lt.Receive(broadcast.VerifLtBlockTopic, lb, sender, sender) }); pi != nil {
-			e.unrecovered("handleBroadcastReceive", pi, line)
+		sender := e.IDs[atoi(f[6])%NPeers]
+		before := e.LT.PendLen()
+		p0, r0 := Logs.N("handleReceive_Panic"), Logs.N("recvLtBlk")
+		if pi := Guard(func() { e.LT.Receive(broadcast.VerifLtBlockTopic, lb, sender, sender) }); pi != nil {
+			e.Unrecovered("handleBroadcastReceive", pi, line)
 			return "panic"
 		}
-		posts := e.takePosts()
+		posts := e.TakePosts()
+		e.LastPosts = posts
 		switch {
-		case logs.n("handleReceive_Panic") > p0:
-			e.recPan++
+		case Logs.N("handleReceive_Panic") > p0:
+			e.RecPan++
 			return "panic"
-		case logs.n("recvLtBlk") == r0:
+		case Logs.N("recvLtBlk") == r0:
 			return "dup"
 		case len(posts) > 0:
-			return "posted " + e.reg.slots(posts[0].Block.Txs)
-		case e.lt.PendLen() > before:
+			return "posted " + e.Reg.Slots(posts[0].Block.Txs)
+		case e.LT.PendLen() > before:
 			return "queued"
 		}
 		return "dropped"
 	case "tick":
-		if pi := guard(e.lt.PendTick); pi != nil {
-			e.unrecovered("pendBlockLoop", pi, "tick")
+		if pi := Guard(e.LT.PendTick); pi != nil {
+			e.Unrecovered("pendBlockLoop", pi, "tick")
 			return "panic"
 		}
 		var posted, reqs []string
-		for _, p := range e.takePosts() {
-			posted = append(posted, e.reg.slots(p.Block.Txs))
+		e.LastPosts = e.TakePosts()
+		for _, p := range e.LastPosts {
+			posted = append(posted, e.Reg.Slots(p.Block.Txs))
 		}
 		for _, x := range e.drainOut() {
 			topic, msg, ok := broadcast.VerifPublished(x)
@@ -499,45 +509,46 @@ func (e *executor) exec(line string, lb *types.LightBlock) string {
 			var q types.ReqInt
 			_ = types.Decode(pm.ProtoMsg, &q)
 			who := -1
-			for i, id := range e.ids {
-				if e.lt.PeerTopic(id) == topic {
+			for i, id := range e.IDs {
+				if e.LT.PeerTopic(id) == topic {
 					who = i
 				}
 			}
 			reqs = append(reqs, fmt.Sprintf("%d:%d", who, q.Height))
 		}
-		return fmt.Sprintf("posted=%s req=%s pend=%d", joinOr(posted, ";"), joinOr(reqs, ","), e.lt.PendLen())
+		e.LastReqs = reqs
+		return fmt.Sprintf("posted=%s req=%s pend=%d", JoinOr(posted, ";"), JoinOr(reqs, ","), e.LT.PendLen())
 	case "breq":
-		sender := e.ids[atoi(f[1])%nPeers]
+		sender := e.IDs[atoi(f[1])%NPeers]
 		msg := &types.PeerPubSubMsg{MsgID: broadcast.VerifBlockReqID, ProtoMsg: types.Encode(&types.ReqInt{Height: atoi64(f[2])})}
-		before := e.lt.ReqLen()
-		p0, f0 := logs.n("handleReceive_Panic"), logs.n("handleBlockReq")
-		if pi := guard(func() { e.receivePeerMsg(msg, sender) }); pi != nil {
-			e.unrecovered("handleBroadcastReceive", pi, line)
+		before := e.LT.ReqLen()
+		p0, f0 := Logs.N("handleReceive_Panic"), Logs.N("handleBlockReq")
+		if pi := Guard(func() { e.receivePeerMsg(msg, sender) }); pi != nil {
+			e.Unrecovered("handleBroadcastReceive", pi, line)
 			return "panic"
 		}
 		sent := e.countResp()
 		switch {
-		case logs.n("handleReceive_Panic") > p0:
-			e.recPan++
+		case Logs.N("handleReceive_Panic") > p0:
+			e.RecPan++
 			return "panic"
-		case e.lt.ReqLen() > before:
+		case e.LT.ReqLen() > before:
 			return "queued"
 		case sent > 0:
 			return "sent"
-		case logs.n("handleBlockReq") > f0:
+		case Logs.N("handleBlockReq") > f0:
 			return "failed"
 		}
 		return "ignored"
 	case "reqtick":
-		f0 := logs.n("handleBlockReq")
-		if pi := guard(e.lt.ReqTick); pi != nil {
-			e.unrecovered("blockRequestLoop", pi, "reqtick")
+		f0 := Logs.N("handleBlockReq")
+		if pi := Guard(e.LT.ReqTick); pi != nil {
+			e.Unrecovered("blockRequestLoop", pi, "reqtick")
 			return "panic"
 		}
-		return fmt.Sprintf("sent=%d failed=%d left=%d", e.countResp(), logs.n("handleBlockReq")-f0, e.lt.ReqLen())
+		return fmt.Sprintf("sent=%d failed=%d left=%d", e.countResp(), Logs.N("handleBlockReq")-f0, e.LT.ReqLen())
 	case "bresp":
-		sender := e.ids[3]
+		sender := e.IDs[3]
 		msg := &types.PeerPubSubMsg{MsgID: broadcast.VerifBlockRespID}
 		switch {
 		case f[1] == "1":
@@ -550,18 +561,18 @@ func (e *executor) exec(line string, lb *types.LightBlock) string {
 		default:
 			msg.ProtoMsg = []byte{0xff, 0xff, 0xff, 0x07}
 		}
-		m0 := e.lt.MsgListLen()
-		p0 := logs.n("handleReceive_Panic")
-		if pi := guard(func() { e.receivePeerMsg(msg, sender) }); pi != nil {
-			e.unrecovered("handleBroadcastReceive", pi, line)
+		m0 := e.LT.MsgListLen()
+		p0 := Logs.N("handleReceive_Panic")
+		if pi := Guard(func() { e.receivePeerMsg(msg, sender) }); pi != nil {
+			e.Unrecovered("handleBroadcastReceive", pi, line)
 			return "panic"
 		}
-		if logs.n("handleReceive_Panic") > p0 {
-			e.recPan++
+		if Logs.N("handleReceive_Panic") > p0 {
+			e.RecPan++
 			return "panic"
 		}
-		e.takePosts()
-		if e.lt.MsgListLen() > m0 {
+		e.TakePosts()
+		if e.LT.MsgListLen() > m0 {
 			return "posted"
 		}
 		return "undecodable"
@@ -570,17 +581,17 @@ func (e *executor) exec(line string, lb *types.LightBlock) string {
 		if blk == nil {
 			return "bad-op"
 		}
-		sender := e.ids[atoi(f[2])%nPeers]
-		p0 := logs.n("handleReceive_Panic")
-		if pi := guard(func() { e.lt.Receive(broadcast.VerifBlockTopic, blk, sender, sender) }); pi != nil {
-			e.unrecovered("handleBroadcastReceive", pi, line)
+		sender := e.IDs[atoi(f[2])%NPeers]
+		p0 := Logs.N("handleReceive_Panic")
+		if pi := Guard(func() { e.LT.Receive(broadcast.VerifBlockTopic, blk, sender, sender) }); pi != nil {
+			e.Unrecovered("handleBroadcastReceive", pi, line)
 			return "panic"
 		}
-		if logs.n("handleReceive_Panic") > p0 {
-			e.recPan++
+		if Logs.N("handleReceive_Panic") > p0 {
+			e.RecPan++
 			return "panic"
 		}
-		e.takePosts()
+		e.TakePosts()
 		return "posted"
 	case "gossip":
 		blk := e.blockFor(f[1])
@@ -588,37 +599,37 @@ func (e *executor) exec(line string, lb *types.LightBlock) string {
 			return "bad-op"
 		}
 		// what the gossip p2p instance of the same node does with a block it received
-		_, _ = e.cur.Mgr.PubBroadCast(hex.EncodeToString(blk.Hash(e.cur.Cfg)), &types.BlockPid{Pid: "gossip-peer", Block: blk}, types.EventBroadcastAddBlock)
-		e.takePosts()
+		_, _ = e.Cur.Mgr.PubBroadCast(hex.EncodeToString(blk.Hash(e.Cur.Cfg)), &types.BlockPid{Pid: "gossip-peer", Block: blk}, types.EventBroadcastAddBlock)
+		e.TakePosts()
 		return "ok"
 	case "pmsg":
 		msg := &types.PeerPubSubMsg{MsgID: 99, ProtoMsg: []byte("x")}
-		if pi := guard(func() { e.receivePeerMsg(msg, e.ids[4]) }); pi != nil {
-			e.unrecovered("handleBroadcastReceive", pi, line)
+		if pi := Guard(func() { e.receivePeerMsg(msg, e.IDs[4]) }); pi != nil {
+			e.Unrecovered("handleBroadcastReceive", pi, line)
 			return "panic"
 		}
 		return "unsupported"
 	case "dtick":
-		if pi := guard(e.lt.DeniedTick); pi != nil {
-			e.unrecovered("manageDeniedPeer", pi, "dtick")
+		if pi := Guard(e.LT.DeniedTick); pi != nil {
+			e.Unrecovered("manageDeniedPeer", pi, "dtick")
 			return "panic"
 		}
 		return "ok"
 	case "deny":
-		who := atoi(f[1]) % nPeers
+		who := atoi(f[1]) % NPeers
 		blk := e.blockFor(f[2])
 		if blk == nil {
 			return "bad-op"
 		}
-		e.cur.SetVerdict(false, "ErrSign")
-		pi := guard(func() {
-			e.lt.Receive(broadcast.VerifBlockTopic, blk, e.ids[who], e.ids[who])
-			e.lt.DeniedTick()
+		e.Cur.SetVerdict(false, "ErrSign")
+		pi := Guard(func() {
+			e.LT.Receive(broadcast.VerifBlockTopic, blk, e.IDs[who], e.IDs[who])
+			e.LT.DeniedTick()
 		})
-		e.cur.SetVerdict(true, "")
-		e.takePosts()
+		e.Cur.SetVerdict(true, "")
+		e.TakePosts()
 		if pi != nil {
-			e.unrecovered("manageDeniedPeer", pi, "deny")
+			e.Unrecovered("manageDeniedPeer", pi, "deny")
 			return "panic"
 		}
 		return "ok"
@@ -630,24 +641,31 @@ func (e *executor) exec(line string, lb *types.LightBlock) string {
 	return "bad-op"
 }
 
-func joinOr(l []string, sep string) string {
+// ExecPoolPushTx indexes a caller-built transaction (a real group head, …) under its own short hash; `line`
+// is the `pool push` op the caller derived from it with the abstraction function.
+func (e *Executor) ExecPoolPushTx(line string, tx *types.Transaction, hash []byte) string {
+	e.Cur.PoolPush(tx, hash)
+	return "ok"
+}
+
+func JoinOr(l []string, sep string) string {
 	if len(l) == 0 {
 		return "-"
 	}
 	return strings.Join(l, sep)
 }
 
-func (e *executor) receivePeerMsg(msg *types.PeerPubSubMsg, sender peer.ID) {
-	raw := e.lt.EncodeMsg(msg)
-	dec := e.lt.NewMsg("peermsg/x")
-	if err := e.lt.DecodeMsg(raw, dec); err != nil {
+func (e *Executor) receivePeerMsg(msg *types.PeerPubSubMsg, sender peer.ID) {
+	raw := e.LT.EncodeMsg(msg)
+	dec := e.LT.NewMsg("peermsg/x")
+	if err := e.LT.DecodeMsg(raw, dec); err != nil {
 		return
 	}
-	e.lt.Receive(e.lt.PeerTopic(e.cur.Env.Host.ID()), dec, sender, sender)
+	e.LT.Receive(e.LT.PeerTopic(e.Cur.Env.Host.ID()), dec, sender, sender)
 }
 
 // countResp counts block responses published since the last drain.
-func (e *executor) countResp() int {
+func (e *Executor) countResp() int {
 	n := 0
 	for _, x := range e.drainOut() {
 		_, msg, ok := broadcast.VerifPublished(x)
@@ -663,7 +681,7 @@ func (e *executor) countResp() int {
 
 // ---------------------------------------------------------------- validators
 
-func (e *executor) psMsg(topic string, from peer.ID, data []byte) *ps.Message {
+func (e *Executor) PsMsg(topic string, from peer.ID, data []byte) *ps.Message {
 	return &ps.Message{Message: &pb.Message{From: []byte(from), Data: data, Topic: &topic}, ReceivedFrom: from}
 }
 
@@ -681,15 +699,15 @@ func verdict(v ps.ValidationResult) string {
 
 var garbage = []byte{0x05, 0xff, 0xfe, 0xfd, 0xfc, 0xfb, 0xfa}
 
-func (e *executor) execValidator(f []string, line string) string {
-	self := e.cur.Env.Host.ID()
+func (e *Executor) execValidator(f []string, line string) string {
+	self := e.Cur.Env.Host.ID()
 	var topic string
 	var from peer.ID
 	var data []byte
 	switch f[0] {
 	case "vblock": // vblock self sender decodable key height
 		topic = broadcast.VerifBlockTopic
-		from = e.ids[atoi(f[2])%nPeers]
+		from = e.IDs[atoi(f[2])%NPeers]
 		if f[1] == "1" {
 			from = self
 		}
@@ -698,18 +716,18 @@ func (e *executor) execValidator(f []string, line string) string {
 			if blk == nil || blk.Height != atoi64(f[5]) {
 				return "bad-op"
 			}
-			data = e.lt.EncodeMsg(blk)
+			data = e.LT.EncodeMsg(blk)
 		} else {
 			data = garbage
 		}
 	case "vtx": // vtx self decodable id ok
 		topic = broadcast.VerifTxTopic
-		from = e.ids[5]
+		from = e.IDs[5]
 		if f[1] == "1" {
 			from = self
 		}
 		if f[2] == "1" {
-			data = e.lt.EncodeMsg(e.reg.tx(atoi(f[3])))
+			data = e.LT.EncodeMsg(e.Reg.Tx(atoi(f[3])))
 		} else {
 			data = garbage
 		}
@@ -718,7 +736,7 @@ func (e *executor) execValidator(f []string, line string) string {
 		}
 	case "vbatch": // vbatch self decodable id:ok,id:ok   (ok flag must be the same for the whole batch here)
 		topic = broadcast.VerifBatchTxTopic
-		from = e.ids[6]
+		from = e.IDs[6]
 		if f[1] == "1" {
 			from = self
 		}
@@ -728,30 +746,30 @@ func (e *executor) execValidator(f []string, line string) string {
 			if len(p) != 2 || (atoi(p[0])%2 == 0) != (p[1] == "1") {
 				return "bad-op"
 			}
-			txs.Txs = append(txs.Txs, e.reg.tx(atoi(p[0])))
+			txs.Txs = append(txs.Txs, e.Reg.Tx(atoi(p[0])))
 		}
 		if f[2] == "1" {
-			data = e.lt.EncodeMsg(&txs)
+			data = e.LT.EncodeMsg(&txs)
 		} else {
 			data = garbage
 		}
 	case "vpeer":
 		topic = broadcast.VerifLtBlockTopic
-		from = e.ids[atoi(f[1])%nPeers]
+		from = e.IDs[atoi(f[1])%NPeers]
 		data = garbage
 	}
 	var v ps.ValidationResult
-	if pi := guard(func() { v = e.lt.Validate(topic, from, e.psMsg(topic, from, data)) }); pi != nil {
-		e.unrecovered("pubsub-validator", pi, line)
+	if pi := Guard(func() { v = e.LT.Validate(topic, from, e.PsMsg(topic, from, data)) }); pi != nil {
+		e.Unrecovered("pubsub-validator", pi, line)
 		return "panic"
 	}
-	e.cur.TakeTxs()
+	e.Cur.TakeTxs()
 	return verdict(v)
 }
 
 // ---------------------------------------------------------------- stream protocols
 
-func (e *executor) reqBytes(rd string, msg types.Message) []byte {
+func (e *Executor) reqBytes(rd string, msg types.Message) []byte {
 	switch rd {
 	case "err":
 		return []byte{0x10, '/', 'p'}
@@ -763,15 +781,15 @@ func (e *executor) reqBytes(rd string, msg types.Message) []byte {
 	return p2pv.Frame(msg)
 }
 
-func (e *executor) runHandler(name string, in []byte) (*p2pv.FakeStream, *panicInfo) {
-	s := p2pv.NewFakeStream(e.ids[7], libproto.ID(name))
+func (e *Executor) runHandler(name string, in []byte) (*p2pv.FakeStream, *PanicInfo) {
+	s := p2pv.NewFakeStream(e.IDs[7], libproto.ID(name))
 	s.In = in
 	h := e.fh.Handlers[libproto.ID(name)]
-	pi := guard(func() { h(s) })
+	pi := Guard(func() { h(s) })
 	return s, pi
 }
 
-func (e *executor) execStream(f []string, line string) string {
+func (e *Executor) execStream(f []string, line string) string {
 	switch f[0] {
 	case "dlold": // dlold rd hasMsg start end
 		req := &types.MessageGetBlocksReq{}
@@ -780,11 +798,11 @@ func (e *executor) execStream(f []string, line string) string {
 		}
 		s, pi := e.runHandler("dlold", e.reqBytes(f[1], req))
 		if pi != nil {
-			e.unrecovered("stream-handler", pi, line)
+			e.Unrecovered("stream-handler", pi, line)
 			return "panic"
 		}
 		if s.WasReset {
-			e.recPan++
+			e.RecPan++
 			return "panic"
 		}
 		if len(s.Out) == 0 {
@@ -799,11 +817,11 @@ func (e *executor) execStream(f []string, line string) string {
 		req := &types.ReqBlocks{Start: atoi64(f[2]), End: atoi64(f[3])}
 		s, pi := e.runHandler("dlnew", e.reqBytes(f[1], req))
 		if pi != nil {
-			e.unrecovered("stream-handler", pi, line)
+			e.Unrecovered("stream-handler", pi, line)
 			return "panic"
 		}
 		if s.WasReset {
-			e.recPan++
+			e.RecPan++
 			return "panic"
 		}
 		if len(s.Out) == 0 {
@@ -819,7 +837,7 @@ func (e *executor) execStream(f []string, line string) string {
 				if f[4] == "1" || i > 0 {
 					it.Value = &types.InvData_Block{Block: &types.Block{Height: atoi64(f[6]) + int64(i), TxHash: []byte("x")}}
 				} else if atoi64(f[6])%2 == 0 {
-					it.Value = &types.InvData_Tx{Tx: e.reg.tx(1)}
+					it.Value = &types.InvData_Tx{Tx: e.Reg.Tx(1)}
 				}
 				resp.Message.Items = append(resp.Message.Items, it)
 			}
@@ -832,8 +850,8 @@ func (e *executor) execStream(f []string, line string) string {
 		})
 		var blk *types.Block
 		var err error
-		if pi := guard(func() { blk, err = e.dl.VerifFetch(5, e.ids[8]) }); pi != nil {
-			e.unrecovered("downloadBlock", pi, line)
+		if pi := Guard(func() { blk, err = e.dl.VerifFetch(5, e.IDs[8]) }); pi != nil {
+			e.Unrecovered("downloadBlock", pi, line)
 			return "panic"
 		}
 		if err != nil || blk == nil {
@@ -855,12 +873,12 @@ func (e *executor) execStream(f []string, line string) string {
 		}
 		s, pi := e.runHandler(name, e.reqBytes(f[2], msg))
 		if pi != nil {
-			e.unrecovered("stream-handler", pi, line)
+			e.Unrecovered("stream-handler", pi, line)
 			return "panic"
 		}
 		switch {
 		case s.WasReset:
-			e.recPan++
+			e.RecPan++
 			return "panic"
 		case s.ConnClosed():
 			return "wrongchain"
@@ -875,19 +893,19 @@ func (e *executor) execStream(f []string, line string) string {
 		}
 		s, pi := e.runHandler(name, e.reqBytes(f[2], &types.MessagePeerInfoReq{}))
 		if pi != nil {
-			e.unrecovered("stream-handler", pi, line)
+			e.Unrecovered("stream-handler", pi, line)
 			return "panic"
 		}
 		switch {
 		case s.WasReset:
-			e.recPan++
+			e.RecPan++
 			return "panic"
 		case len(s.Out) > 0:
 			return "replied"
 		}
 		return "dropped"
 	case "qinfo": // qinfo rd version-string-kind
-		info := &types.Peer{Name: e.ids[9].Pretty(), Version: map[string]string{"a": "6.8.9@1.2.3", "b": "x", "c": "1@", "d": "@@", "e": "1@2"}[f[2]], Header: &types.Header{Height: 9}}
+		info := &types.Peer{Name: e.IDs[9].Pretty(), Version: map[string]string{"a": "6.8.9@1.2.3", "b": "x", "c": "1@", "d": "@@", "e": "1@2"}[f[2]], Header: &types.Header{Height: 9}}
 		reply := e.reqBytes(f[1], info)
 		e.fh.SetDial(func(ctx context.Context, p peer.ID, proto libproto.ID) (network.Stream, error) {
 			s := p2pv.NewFakeStream(p, proto)
@@ -895,15 +913,15 @@ func (e *executor) execStream(f []string, line string) string {
 			return s, nil
 		})
 		var err error
-		if pi := guard(func() {
+		if pi := Guard(func() {
 			var pinfo *types.Peer
-			pinfo, err = e.pp.VerifQueryPeerInfo(e.ids[9])
+			pinfo, err = e.pp.VerifQueryPeerInfo(e.IDs[9])
 			if err == nil {
 				e.pp.VerifCheckVersionLimit(pinfo.GetVersion())
 				e.dlWorld.Env.PeerInfoManager.Refresh(pinfo)
 			}
 		}); pi != nil {
-			e.unrecovered("refreshPeerInfo", pi, line)
+			e.Unrecovered("refreshPeerInfo", pi, line)
 			return "panic"
 		}
 		if err != nil {
@@ -919,8 +937,8 @@ func (e *executor) execStream(f []string, line string) string {
 			return s, nil
 		})
 		var err error
-		if pi := guard(func() { err = e.pp.VerifQueryVersion(e.ids[9]) }); pi != nil {
-			e.unrecovered("detectNodeAddr", pi, line)
+		if pi := Guard(func() { err = e.pp.VerifQueryVersion(e.IDs[9]) }); pi != nil {
+			e.Unrecovered("detectNodeAddr", pi, line)
 			return "panic"
 		}
 		if err != nil {
